@@ -13,10 +13,14 @@ use crate::subject::observe;
 use rtcp_types::prelude::*;
 use rtcp_types::*;
 
-/// `s` lies inside `input` (empty slices are trivially fine); returns its offset
+/// `s` lies inside `input`; returns its offset. An empty slice is a sub-slice too when it points into the buffer (or
+/// one past its end): "a sub-slice of the caller's input buffer" is said of every returned slice, and an empty slice
+/// made from the input (`&data[k..k]`) satisfies it, one made from nothing (`&[]`) does not.
 fn sub_slice_offset(input: &[u8], s: &[u8]) -> Result<usize, String> {
     if s.is_empty() {
-        return Ok(0);
+        let (ib, ie) = (input.as_ptr() as usize, input.as_ptr() as usize + input.len());
+        let sb = s.as_ptr() as usize;
+        return if sb >= ib && sb <= ie { Ok(sb - ib) } else { Err("an empty slice that does not point into the caller's buffer".to_string()) };
     }
     let (ib, ie) = (input.as_ptr() as usize, input.as_ptr() as usize + input.len());
     let (sb, se) = (s.as_ptr() as usize, s.as_ptr() as usize + s.len());
@@ -444,6 +448,52 @@ pub fn c09(ctx: &mut Ctx) {
                     if n > 0 {
                         l.validated += 1;
                         l.nontrivial(fp_bytes(&buf));
+                    }
+                }
+            }
+        });
+    }
+    // well-formed packets are always accepted - also when they arrive many in one datagram: every tile count up to
+    // gens::dense_bound, each tile handed out as what the generic parser makes of it, with its views checked
+    {
+        let nd = gens::dense_bound(ctx.tier);
+        ctx.bound("(a) in datagrams", format!("datagrams of every count 1..={} of well-formed fixed-layout packets: accepted by Compound::parse, every tile yielded Ok and equal to Packet::parse of the tile, views checked on every 16th tile", nd));
+        let sp = bytes::dense_chain_space(nd);
+        let get = &sp.get;
+        ctx.run_space("wellformed:datagrams-of-every-tile-count", nd as u64, |idx, l| {
+            let mut buf = Vec::new();
+            get(idx * 4, &mut buf); // the exactly tiled member of each group of four tails
+            l.evals += 1;
+            l.states += 1;
+            l.sample(|| hex_short(&buf));
+            let tiles = crate::refmodel::read::tile(&buf).expect("the space makes exact tilings");
+            let r = guard::catch(|| -> Result<(), String> {
+                let c = Compound::parse(&buf).map_err(|e| format!("Compound::parse = {:?}", e))?;
+                let mut k = 0usize;
+                for item in c.take(tiles.len() + 2) {
+                    let (a, b) = *tiles.get(k).ok_or("more items than tiles")?;
+                    let p = item.map_err(|e| format!("tile {} of {}: {:?}", k, tiles.len(), e))?;
+                    let alone = Packet::parse(&buf[a..b]).map_err(|e| format!("Packet::parse of tile {}: {:?}", k, e))?;
+                    if !super::framing::packet_results_equal(&Ok(p), &Ok(alone)) {
+                        return Err(format!("tile {} of {} differs from Packet::parse of its bytes", k, tiles.len()));
+                    }
+                    k += 1;
+                }
+                if k != tiles.len() {
+                    return Err(format!("{} items for {} tiles", k, tiles.len()));
+                }
+                Ok(())
+            });
+            l.transitions += tiles.len() as u64 + 1;
+            l.validated += 1;
+            match r {
+                Err(pi) => l.subject_panic("datagram-of-wellformed-packets", &pi, || format!("{} tiles", tiles.len())),
+                Ok(Err(m)) => l.violation("wellformed-rejected:in-a-datagram", || format!("{} well-formed tiles: {}", tiles.len(), hex_short(&buf)), || m),
+                Ok(Ok(())) => {
+                    l.hit("datagram of well-formed packets accepted tile by tile");
+                    l.nontrivial(fp_bytes(&buf));
+                    for (a, b) in tiles.iter().step_by(16) {
+                        let _ = check_views(l, &buf[*a..*b], false, None);
                     }
                 }
             }
